@@ -8,10 +8,19 @@ import EAO.Lemmas.Grid
 # helper lemmas for `EAO/Properties/C13Builders.lean` (builders with a coarse asset frequency)
 
 Part A: sums over ranges, regrouping a sum over the fine steps by coarse step.
-Part B: the abstract statement: a problem whose cost / bounds are those of a coarse problem "spread" over the fine
-        steps (`B` blocks of variables) is the coarse problem seen through `expand`.
-Part C: the owner / weight lists made from the minor lists (`ownerFrom`, `weightFrom`) and what `extendMinor` writes.
-Part D: inversion of the builders of `EAO/Model/CoarseBuild.lean`.
+Part B: the abstract statement on functions: owner / weight data (`Spread`), cost and bounds of a problem "spread" over
+        the fine steps (`B` blocks of variables), same rate of an expansion, every same-rate point is an expansion.
+Part C: the lists made from the minor lists (`ownerFrom`, `weightFrom`, `cellMapFrom`), what `extendMinor` writes for a
+        mapping block, dispatch read-out of an extended coarse block = of the fine block at the expanded point.
+Part D: two asset problems in the spread relation (`SpreadProblem`) are equivalent (`spreadProblem_equiv`).
+Part E: a well-formed coarse grid gives a `Spread`; the fine grid `minorGrid` entry by entry.
+Part F: inversion of `buildCoarseTransport` and the cores.      Part G: the transport is a `SpreadProblem`.
+Part H: `expand` / `SameRate` of the model.                     Part I: the simple contract (inversion, parameter vectors
+        on both grids, sign tests, one- and two-variable form as `SpreadProblem`).
+Part M: `Grid.coarsen` on a top-level grid is well formed; whole coarse steps: `minorGrid = restrict`.
+Part N: scalars are constant inside coarse steps; factor sums.  Part O: shape of the mappings the builders return.
+Part P: the `freq=None` builders are the cores after the sampled series.   Part Q: discount factor of a coarse step.
+Part R: the fine simple contract is built whenever the coarse one is.
 -/
 namespace EAO.CoarseBuild
 open EAO EAO.Merge
